@@ -393,8 +393,10 @@ func TestC18(t *testing.T) {
 		}
 		// 4. per-attempt deadline
 		for _, s := range starts {
-			if !s.HasDL || s.Deadline > effTimeout {
-				ev.Violation(rt, "C18", rp, "attempt %d runs with deadline %v (has=%v), Timeout is %v", s.Target, s.Deadline, s.HasDL, effTimeout)
+			// the caller's context has no deadline of its own, so every attempt gets exactly
+			// Timeout from the instant it begins: more is unbounded, less fails attempts early
+			if !s.HasDL || s.Deadline != effTimeout {
+				ev.Violation(rt, "C18", rp, "attempt %d (begun at %v) runs with a deadline %v after its start (has=%v), Timeout is %v", s.Target, s.T, s.Deadline, s.HasDL, effTimeout)
 			}
 		}
 		// 4b. the retry after an ECH rejection belongs to the same attempt: it ends by the
